@@ -67,9 +67,13 @@ def merge_report(rep, d):
                 tgt.append(x)
 
 
-def run_parts(rep, tier, parts, max_workers=None, timeout_s=3600, mir_text=None, sources=None):
+def run_parts(rep, tier, parts, max_workers=None, timeout_s=None, mir_text=None, sources=None):
     if not parts:
         return
+    if timeout_s is None:
+        # a part that does not finish is reported as inconclusive, never waited for indefinitely (changed code can blow up
+        # the number of paths of a control encoding)
+        timeout_s = 900 if tier == "quick" else 3600
     max_workers = max_workers or max(1, min(NCPU - 2, 14))
     os.makedirs(BUILD, exist_ok=True)
     env = dict(os.environ)
